@@ -392,7 +392,7 @@ class T:
         rc = z3.Or(*[p.cond() for p in bad]) if bad else z3.BoolVal(False)
         return self.prove(clause, rc == allowed, replay=("paths", paths))
 
-    def implicit(self, prefix="implicit"):
+    def implicit(self, prefix="implicit", assumptions=()):
         """Discharge the implicit obligations the executor met (index bounds, domains, shapes...)."""
         seen = {}
         for ob in self.ctx.implicit:
@@ -401,7 +401,8 @@ class T:
         for (kind, where), obs in sorted(seen.items()):
             goal = z3.And(*[z3.Implies(z3.And(*o["pc"]) if o["pc"] else z3.BoolVal(True), o["goal"]) for o in obs])
             # pc already contains pre (states start from pre)
-            res = solve.check_valid(list(self.ctx.facts), goal, self.timeout_ms)
+            base = list(assumptions)
+            res = solve.check_valid(base + relevant_facts(self.ctx.facts, base + [goal]), goal, self.timeout_ms)
             extra = {}
             if res["status"] == "failed":
                 extra["replay"] = self._make_replay("%s:%s@%s" % (prefix, kind, where), res, None)
@@ -422,7 +423,7 @@ class T:
                         cs.append(V.Z(V.eq(a, b)))
             return z3.And(*cs) if cs else z3.BoolVal(True)
 
-        return self.prove_paths(clause, paths, goal, kind="frame")
+        return self.prove_paths(clause, paths, goal, kind="frame", replay=("frame", list(names)))
 
     # ---- replay ----------------------------------------------------------
     def _make_replay(self, clause, res, replay):
@@ -529,6 +530,24 @@ class T:
                     pred = p
                     break
         body.extend(pre_lines)
+        if isinstance(replay, tuple) and replay[0] == "frame":
+            # frame obligation: run the real code on the counter-model's inputs and compare them before / after
+            names = [n for n in replay[1] if n in self.inputs]
+            body.append("import copy")
+            body.append("_before = {n: copy.deepcopy(v) for n, v in {%s}.items()}" % ", ".join("%r: %s" % (n, n) for n in names))
+            body.append("try:")
+            body.append("    _res = %s(%s)" % (target, args))
+            body.append("except Exception as _e:")
+            body.append("    print('raised', type(_e).__name__, _e)")
+            body.append("_changed = [n for n, v in {%s}.items() if not np.array_equal(np.asarray(v), np.asarray(_before[n]))]" % ", ".join("%r: %s" % (n, n) for n in names))
+            body.append("print('inputs written by the call:', _changed)")
+            body.append("for n in _changed: print(n, 'before', np.asarray(_before[n]).tolist(), 'after', np.asarray(eval(n)).tolist())")
+            body.append("if _changed:")
+            body.append("    print('REPLAY-CONFIRMED obligation=%s (the call wrote to its input)' % OBLIGATION)")
+            body.append("    raise SystemExit(1)")
+            body.append("print('REPLAY-NOT-REPRODUCED obligation=%s' % OBLIGATION)")
+            body.append("raise SystemExit(4)")
+            return body
         body.append("try:")
         body.append("    _res = %s(%s)" % (target, args))
         body.append("    _out = ('return', _res)")
